@@ -543,3 +543,46 @@ def miri_crate():
 
 def signature(v):
     return None
+
+
+def replay(d, meta):
+    """Re-run a recorded C20 script against the current tree: threaded run (same build family), bit-exact comparison with
+    the sequential baseline, the baseline against the model, and sanitizer report count."""
+    script = open(os.path.join(d, "script.txt")).read()
+    if "PAR" not in script.split("\n"):
+        print("INCONCLUSIVE property=C20 reason=replay script has no parallel section")
+        return 2
+    lines = script.split("\n")
+    k = lines.index("PAR")
+    pre, par = [l for l in lines[:k] if l.strip()], [l for l in lines[k + 1:] if l.strip()]
+    b = str(meta.get("violation", {}).get("build", "rel"))
+    build = "tsan" if b.startswith("tsan") else "asan" if b.startswith("asan") else "chk" if b.startswith("chk") else "rel"
+    if build == "rel" and b.startswith("miri"):
+        print("INCONCLUSIVE property=C20 reason=Miri findings are replayed with: cargo +nightly miri run (see script.txt)")
+        return 2
+    res = H.ShardResult()
+    wd = H.work_dir("c20-replay", 0)
+    try:
+        env = {"TSAN_OPTIONS": "halt_on_error=0 exitcode=66"} if build == "tsan" else {"ASAN_OPTIONS": "exitcode=67"} if build == "asan" else None
+        st, rc, err, text, sc = threaded_leg(res, wd, pre, par, build, 16, 6, 4242, True, env=env, wall=1500, tag="replay")
+        nrep = sanitizer_reports(err, build)
+        if st == "hang":
+            res.violations.append(dict(kind="hang", build=build, line="threaded run", expected="progress", observed="no CPU progress"))
+        elif nrep or rc in (66, 67):
+            res.violations.append(dict(kind="sanitizer", build=build, line="threaded run", expected="no sanitizer report", observed=err[:600]))
+        elif rc != 0 or not check_threaded(res, text, sc, pre, par, build + "-threads", judge_model=True):
+            res.violations.append(dict(kind="abort", build=build, line="threaded run", expected="clean exit", observed="rc=%s" % rc))
+    finally:
+        shutil.rmtree(wd, ignore_errors=True)
+    if res.violations:
+        v = res.violations[0]
+        print("VIOLATION property=C20 replay=%s" % d)
+        print("  build=%s op: %s" % (v.get("build"), str(v.get("line"))[:300]))
+        print("  expected: %s" % str(v.get("expected"))[:300])
+        print("  observed: %s" % str(v.get("observed"))[:300])
+        return 1
+    if res.inconclusive:
+        print("INCONCLUSIVE property=C20 reason=%s" % " | ".join(res.inconclusive)[:1000])
+        return 2
+    print("OK property=C20 replay passes on the current tree (%d comparisons)" % res.evals)
+    return 0
